@@ -46,6 +46,7 @@ def _scripts(ctx, chained, backend, tag, limit):
                 steps.append({"op": "AggPut", "view": args[0], "b": args[1]})
             elif name == "Restart":
                 steps.append({"op": "Restart"})
+        steps.append({"op": "FailRace"})
         steps.append({"op": "Race"})
         out.append({"name": "tour-%s-%d" % (tag, i), "chained": chained, "backend": backend, "steps": steps})
     return out
